@@ -4,7 +4,7 @@ CONSTANTS MaxRows = 1
           NKeys = 1
           SpecCodes = {0, 1, 2, 3}
           SplitFanIns = {8}
-          Singles = {809, 810, 811, 816, 817, 203, 204, 205, 206, 207, 304, 305, 307}
+          Singles = {806, 807, 808, 809, 810, 811, 816, 817, 203, 204, 205, 206, 207, 304, 305, 307}
           Fetches = {99, 3}
           NoFetch = 99
           AllowEmpty = FALSE
